@@ -114,12 +114,12 @@ namespace BitSerializer
 			if constexpr (TArchive::IsLoading())
 			{
 				cont.clear();
-				auto hint = cont.begin();
 				while (!arrayScope.IsEnd())
 				{
 					typename TMultiMap::value_type pair;
 					if (Serialize(arrayScope, pair)) {
-						hint = cont.emplace_hint(hint, std::move(pair));
+						// Hint at the end: elements with equivalent keys keep the order in which they were saved
+						cont.emplace_hint(cont.end(), std::move(pair));
 					}
 				}
 			}
